@@ -14,7 +14,7 @@
 //!   (`new_inclusive`: `lo <= hi`), `sample` returns a nondeterministic value `v` with `lo <= v < hi` (`lo <= v <= hi`).
 //!   Every conforming implementation and every RNG stream is covered at once.
 //! * `cbrt` (no usable CBMC model) is nondeterministic within its range contract `0 <= x <= 1 => 0 <= cbrt(x) <= 1`,
-//!   `x >= 0 => cbrt(x) >= 0`. With `abstract_powers(true)` the pairs `powi(2)`/`x * x`/`sqrt` and `powi(3)`/`cbrt`
+//!   `x >= 0 => cbrt(x) >= 0`. With `abstract_powers(..)` the pairs `powi(2)`/`x * x`/`sqrt` and `powi(3)`/`cbrt`
 //!   become an *arbitrary strictly increasing function on [0, inf) that maps [0, 1] into [0, 1], and its inverse* (every such
 //!   pair at once: the real-number square/cube and root are one of them). That is exactly what range containment of the
 //!   cylinder and cone samplers rests on (they sample between the squared / cubed ends and take the root); the
@@ -53,15 +53,19 @@ pub struct K32(pub f32);
 
 const NPOW: usize = 4;
 static mut ABSTRACT: bool = false;
+static mut ABSTRACT_SQ: bool = false;
 static mut POW_N: usize = 0;
 static mut POW_X: [f32; NPOW] = [0.0; NPOW];
 static mut POW_E: [i32; NPOW] = [0; NPOW];
 static mut POW_R: [f32; NPOW] = [0.0; NPOW];
 
-/// Switches `x * x`, `powi(2|3)`, `sqrt` and `cbrt` of `K32` to the abstract strictly increasing function / inverse pairs.
-pub fn abstract_powers(on: bool) {
+/// Switches `powi(2|3)`, `sqrt` and `cbrt` of `K32` to the abstract strictly increasing function / inverse pairs;
+/// `squares` additionally treats a product of two bit-identical operands (`x * x`, how the cylinder samplers square
+/// their radius ends) as `powi(2)`.
+pub fn abstract_powers(squares: bool) {
     unsafe {
-        ABSTRACT = on;
+        ABSTRACT = true;
+        ABSTRACT_SQ = squares;
     }
 }
 
@@ -155,7 +159,7 @@ impl Sub for K32 {
 impl Mul for K32 {
     type Output = K32;
     fn mul(self, o: K32) -> K32 {
-        if is_abstract() && self.0.to_bits() == o.0.to_bits() {
+        if unsafe { ABSTRACT_SQ } && self.0.to_bits() == o.0.to_bits() {
             K32(abs_pow(self.0, 2))
         } else {
             K32(self.0 * o.0)
@@ -396,9 +400,10 @@ pub fn wrap360(x: f64) -> f64 {
     x
 }
 
-/// The hue `sample` (positive degrees in [0, 360]) lies on the arc that runs in the direction of increasing angle from
-/// the hue `low` to the hue `high` (raw degrees in [-360, 720], `low <= high`). Ends that are the same hue: the whole
-/// circle when `low < high` (one or more full turns), the single point when `low == high`.
+/// The hue with raw angle `sample` (degrees) lies on the arc that runs in the direction of increasing angle from the hue
+/// `low` to the hue `high` (raw degrees in [-360, 720], `low <= high`). Ends that are the same hue: the whole circle when
+/// `low < high` (one or more full turns), the single point when `low == high`. A sample in [0, 1080) is reduced modulo 360
+/// exactly (f64); any other sample through palette's own `into_positive_degrees`.
 pub fn on_arc(low: f32, high: f32, sample: f32) -> bool {
     let a = wrap360(low as f64);
     let b = wrap360(high as f64);
@@ -406,6 +411,32 @@ pub fn on_arc(low: f32, high: f32, sample: f32) -> bool {
     if span == 0.0 && low < high {
         return true;
     }
-    let t = wrap360(sample as f64 - a);
+    let s = if sample >= 0.0 && sample < 1080.0 {
+        sample as f64
+    } else {
+        palette::angle::UnsignedAngle::normalize_unsigned_angle(sample) as f64
+    };
+    let t = wrap360(s - a);
     t <= span + ARC_TOL || t >= 360.0 - ARC_TOL
+}
+
+/// The f32 normal form palette computes for the end `x` in [-360, 720] (`into_positive_degrees`: `x - floor(x / 360) * 360`)
+/// is the exact `x mod 360`: every end in [0, 720] (the subtraction of 0 or 360 is exact) and the negative ends for which
+/// `x + 360` is representable in f32 (-90, -0.5, -359.75, ...). Not: negative ends that are rounded when 360 is added
+/// (e.g. -1e-9, whose f32 normal form is 360.0).
+pub fn normalises_exactly(x: f32) -> bool {
+    let n = palette::angle::UnsignedAngle::normalize_unsigned_angle(x);
+    n as f64 == wrap360(x as f64)
+}
+
+/// Non-wrapping arcs, exact: for ends `0 <= low <= high < 360` (their own normal forms, no arithmetic involved) the hue with
+/// raw angle `sample` lies in `[low, high]`. A sample in [0, 360) is its own normal form; any other sample is reduced through
+/// palette's `into_positive_degrees`.
+pub fn in_plain_arc(low: f32, high: f32, sample: f32) -> bool {
+    let r = if sample >= 0.0 && sample < 360.0 {
+        sample
+    } else {
+        palette::angle::UnsignedAngle::normalize_unsigned_angle(sample)
+    };
+    low <= r && r <= high
 }
